@@ -1,5 +1,7 @@
 import PV.C03.Escapes
 import PV.C03.Lemmas
+import PV.C03.LexGlobal
+import PV.Lexer.Lemmas
 /-
   C03 — property theorems (string-literal side).  Helper lemmas live in `PV/C03/Lemmas.lean`; the
   models in `PV/C03/Escapes.lean`.  Each theorem says that a checked operation of the model — the
@@ -12,6 +14,13 @@ import PV.C03.Lemmas
                              `unicodeLiteral_char_valid`, `unicodeLiteral_err_offset`
   `parse_unicode_name`     : `unicodeName_guard`, `unicodeName_err_offset`
   f-string scanner         : `fstring_depth_le_two`, `fstring_terminates`, `fstring_err_offset`
+
+  Lexer side (second half of the file), over the shared model `PV.Lexer` of `parser/src/lexer.rs` +
+  `soft_keywords.rs`, for every source text, mode, start offset and every instantiation of the
+  Unicode predicates satisfying `UParams.Sane`:
+  `lex_terminates`, `lex_no_panic` (+ `lex_none_iff_too_long`), `lex_err_offset`, `offset_arith_u32`.
+  They follow from the per-step contract `PV.Lexer.step_ok` / `step_err` (`PV/Lexer/Lemmas.lean`) by
+  the fuel induction of `PV/C03/LexGlobal.lean`.
 -/
 namespace PV.C03
 
@@ -196,5 +205,89 @@ example : parseFstringBody 2 [.lb, .x, .colon, .lb, .x, .colon, .lb, .x, .rb, .r
 example : parseFstringBody 2 [.lb, .x, .colon, .lb, .x, .rb, .rb] = .ok [] 9 1 := by decide +kernel
 /-- `f"{x:"` — unclosed field reported at the end of the body -/
 example : parseFstringBody 2 [.lb, .x, .colon] = .err 5 0 := by decide +kernel
+
+/-! ## the lexer -/
+
+section Lexer
+open PV.Lexer
+
+/-- the per-step contract holds for the lexer model under the sanity hypothesis on the Unicode tables -/
+theorem stepContract (cfg : Cfg) (hs : cfg.up.Sane) : StepContract cfg StInv where
+  ok := fun _ _ _ hst h => by
+    have r := step_ok hs hst h
+    exact ⟨r.1, r.2.1, r.2.2.2.1⟩
+  err := fun _ _ _ hst h => step_err hs hst h
+
+/-- **The token stream up to and including its first error is finite**: with the explicit fuel
+    `src.length + 1` (`lexRaw`) the model never runs out of fuel. -/
+theorem lex_terminates (cfg : Cfg) (hs : cfg.up.Sane) (mode : Mode) (start : Nat) (src : List Nat)
+    (out : LexOut) (h : lex cfg mode start src = some out) : out.fin ≠ .outOfFuel := by
+  rw [(lex_some h).1]
+  exact (rawRun_ok (stepContract cfg hs) stInv_init start src).fin_fuel
+
+/-- **The lexer never panics** on a text that fits the 32-bit offset space behind `start`: the model
+    returns `some` (no modelled `unwrap` / `expect` / checked subtraction fails and `location` does not
+    overflow), and the stream never ends in the pseudo error `panic`. -/
+theorem lex_no_panic (cfg : Cfg) (hs : cfg.up.Sane) (mode : Mode) (start : Nat) (src : List Nat)
+    (hfit : start + utf8Len src ≤ u32Max) :
+    (lex cfg mode start src).isSome = true ∧
+    ∀ out, lex cfg mode start src = some out → ∀ co bo, out.fin ≠ .err .panic co bo := by
+  refine ⟨lex_isSome_of_fit (stepContract cfg hs) stInv_init mode start src hfit, ?_⟩
+  intro out h co bo
+  rw [(lex_some h).1]
+  exact (rawRun_ok (stepContract cfg hs) stInv_init start src).no_panic co bo
+
+/-- the only way the model answers `none` is a text that does not fit behind `start` -/
+theorem lex_none_iff_too_long (cfg : Cfg) (hs : cfg.up.Sane) (mode : Mode) (start : Nat) (src : List Nat)
+    (h : lex cfg mode start src = none) : u32Max < start + utf8Len src :=
+  lex_none_only_overflow (stepContract cfg hs) stInv_init mode start src h
+
+/-- **A lexical error is not misplaced**: its byte offset is `start` plus the UTF-8 length of a
+    prefix of the source — between `start` and the end of the input, on a character boundary. -/
+theorem lex_err_offset (cfg : Cfg) (hs : cfg.up.Sane) (mode : Mode) (start : Nat) (src : List Nat)
+    (out : LexOut) (h : lex cfg mode start src = some out) (k : ErrKind) (co bo : Nat)
+    (he : out.fin = .err k co bo) :
+    (∃ j, j ≤ src.length ∧ co = j ∧ bo = start + utf8Len (src.take j)) ∧
+    start ≤ bo ∧ bo ≤ start + utf8Len src := by
+  rw [(lex_some h).1] at he
+  obtain ⟨j, hj, hco, hbo⟩ := (rawRun_ok (stepContract cfg hs) stInv_init start src).err_at k co bo he
+  refine ⟨⟨j, hj, by omega, hbo⟩, by omega, ?_⟩
+  have := utf8Len_take_le src j
+  omega
+
+/-- **Offset arithmetic stays inside `u32`**: the farthest value `location` reaches is at most
+    `start + utf8Len src`; hence if that fits `u32` no modelled addition overflows. -/
+theorem offset_arith_u32 (cfg : Cfg) (hs : cfg.up.Sane) (mode : Mode) (start : Nat) (src : List Nat)
+    (out : LexOut) (h : lex cfg mode start src = some out) :
+    out.reachedB ≤ start + utf8Len src ∧ out.reachedB ≤ u32Max := by
+  rw [(lex_some h).2]
+  refine ⟨(rawRun_ok (stepContract cfg hs) stInv_init start src).reached, ?_⟩
+  -- `lexRaw` returned `some`, so the overflow test passed
+  have h' := h
+  rw [lex_eq_map] at h'
+  cases hr : lexRaw cfg start src with
+  | none => rw [hr] at h'; cases h'
+  | some o =>
+    have ho := lexRaw_some_eq hr
+    rw [lexRaw_eq] at hr
+    split at hr
+    · cases hr
+    · rename_i hle
+      omega
+
+/-- a sane parameter instance (no non-ASCII identifier characters, no emoji names) -/
+def upAscii : UParams := ⟨fun _ => false, fun _ => false, fun _ => false⟩
+theorem upAscii_sane : upAscii.Sane := ⟨fun c h => by simp [upAscii] at h, rfl, rfl⟩
+
+/-- `x $` lexed at start offset 7: `UnrecognizedToken` after the `$`, character 3, byte 10 -/
+example : (lex ⟨false, upAscii⟩ .module 7 [120, 32, 36]).map (·.fin) = some (.err (.unrecognizedToken 36) 3 10) := by
+  decide +kernel
+/-- a text that ends exactly at `u32::MAX` is lexed without overflow -/
+example : (lex ⟨false, upAscii⟩ .module 4294967290 [120, 32, 61, 32, 49]).map (·.reachedB) = some 4294967295 := by
+  decide +kernel
+/-- one byte more does not fit: the model answers `none` (the Rust `location +=` overflows) -/
+example : lex ⟨false, upAscii⟩ .module 4294967290 [120, 32, 61, 32, 49, 50] = none := by
+  decide +kernel
+end Lexer
 
 end PV.C03
